@@ -46,6 +46,26 @@ def memo_programs(ctx):
                 x, y = {1: 2, 2: 1, 3: 4, 4: 3}[y], {1: 2, 2: 1, 3: 4, 4: 3}[x]
             p.bin(op, x, y, 5)
         progs.append(p.d())
+    # other calls evaluated before a product must not matter either: quantize (zero amount / rejected, explicit mode),
+    # round, comparisons - then products and quotients that land exactly between two multiples of a quantum
+    from drivers.calcgen import MODES
+    for j, m in enumerate(MODES):
+        p = Prog('c17q%d' % j)
+        p.make(1, 'A', F(0), 'a')
+        p.make(2, 'A', F(1, 2), 'ka')
+        p.make(3, 'B', F(1), 'b')
+        p.quantize(1, 2, m, 6)            # zero amount
+        p.quantize(1, 3, m, 6)            # rejected: quantum of another type
+        p.round(2, 0, 6)
+        for k in range(1, 9):
+            p.make(1, 'DpB', F(k, 16), 'dpb', 'frac')
+            p.make(4, 'B', F(1), 'b')
+            p.bin('Mul', 1, 4, 5)         # k/16 d: every second one is a tie on the grid of 1/8 d
+            p.bin('Mul', 4, 1, 5)
+            p.make(5, 'D', F(k, 8), 'd')
+            p.num(6, F(2), 'int')
+            p.bin('Div', 5, 6, 5)
+        progs.append(p.d())
     return progs
 
 
